@@ -105,8 +105,14 @@ CHECKS["C08"] = dict(
     title="construct once / destroy once / storage returned", level="model_checking", engine="E2",
     claim=("The live-object registry (construct-over-live, use/assign/destroy of a dead object), the allocation ledger (unknown/double/size-mismatched deallocate, outstanding blocks/elements when the pool dies) "
            "and the 0xA5 pre-fill oracle (sizing constructors and reextent must not write trivially-default-constructible elements) are evaluated on every transition of the E2 search over the full alphabet."),
-    jobs=lambda tier: hist_jobs("C08", tier) + alloc_jobs("C08", tier, combos=[(0, 1, 0, 0), (1, 0, 1, 0), (1, 1, 1, 1)]), rule=HIST_RULE + " The ledger keeps separate books per allocator instance: the search is repeated with a stateful allocator (three propagation-trait configurations, equal and unequal instances) so that a block released through the wrong instance is visible. Reported for C08: registry/ledger/leak oracles on any transition; for int elements the model holds the allocator's pre-fill pattern for never-written elements.", assumptions=HIST_ASSUME,
+    jobs=lambda tier: hist_jobs("C08", tier) + alloc_jobs("C08", tier, combos=[(0, 1, 0, 0), (1, 0, 1, 0), (1, 1, 1, 1)]) + serial_hist_jobs("C08", tier), rule=HIST_RULE + " The ledger keeps separate books per allocator instance: the search is repeated with a stateful allocator (three propagation-trait configurations, equal and unequal instances) so that a block released through the wrong instance is visible. Reported for C08: registry/ledger/leak oracles on any transition; for int elements the model holds the allocator's pre-fill pattern for never-written elements.", assumptions=HIST_ASSUME,
 )
+
+
+def serial_hist_jobs(prop, tier):
+    """E2 histories with serialisation-load as a letter (tracked elements): every reachable prior state of the loading array, registry/ledger on"""
+    return [Job("histmc", cfg="san", defs=["-DHM_D=%d" % d, "-DHM_ELEM=0", "-DHM_SERIAL"], libs=["-lboost_serialization"], args=["--tier=" + tier, "--prop=" + prop, "--depth=%d" % (3 if tier == "quick" else 4)])
+            for d in ((2,) if tier == "quick" else (1, 2, 3))]
 
 
 def alloc_jobs(prop, tier, cfg="san", combos=None):
@@ -162,7 +168,7 @@ CHECKS["C17"] = dict(
     claim=("Complete grid: element type {int,double,std::string,nested array<int,1>} x D=0..4 x shape menu (incl. zero extents) x archive kind {text,binary,xml} x prior state of the loading array "
            "{default, same extents, other count, permuted extents with the same count, cleared, moved-from, larger}; and all ordered pairs (saved view, loading view) of equal extents from the E1 state sets "
            "(depth 2 quick / 3 thorough) of two guard-buffer roots, where the loading root's whole buffer is compared with 'k-th canonical element <- k-th canonical element'."),
-    jobs=lambda tier: [Job("sermc", cfg="san", args=["--tier=" + tier], libs=["-lboost_serialization"])],
+    jobs=lambda tier: [Job("sermc", cfg="san", args=["--tier=" + tier], libs=["-lboost_serialization"])] + serial_hist_jobs("C17", tier),
     rule=("flat enumeration of the grid above, every case executed on the real implementation with Boost.Serialization 1.83; oracle for arrays: extensions()==, element-wise ==, operator==; for views: whole "
           "destination buffer incl. guards vs model expectation, source unchanged. distinct_nontrivial = cases with >= 2 elements. The archive kind cycles over view pairs (all three kinds occur in every extents class)."),
     assumptions=["Boost.Serialization is the environment", "views of read-only type (const_subarray) cannot be saved on this tree (serialize() does not compile for them): not generated", "g++ 12 -O0 ASan+UBSan"],
